@@ -238,11 +238,11 @@ func RecoverLegacyRawTransaction(ctx context.Context, rawTx ethtypes.HexBytes0xP
 		return nil, nil, i18n.NewError(ctx, signermsgs.MsgInvalidLegacyTransaction, err)
 	}
 
-	if decoded == nil || len(decoded.(rlp.List)) < 9 {
+	rlpList, isList := decoded.(rlp.List)
+	if !isList || len(rlpList) < 9 {
 		log.L(ctx).Errorf("Invalid legacy transaction data '%s': EOF", rawTx)
 		return nil, nil, i18n.NewError(ctx, signermsgs.MsgInvalidLegacyTransaction, "EOF")
 	}
-	rlpList := decoded.(rlp.List)
 
 	tx := &Transaction{
 		Nonce:    (*ethtypes.HexInteger)(rlpList[0].ToData().Int()),
@@ -310,9 +310,8 @@ func decodeEIP1559SignaturePayload(ctx context.Context, rawTx ethtypes.HexBytes0
 		log.L(ctx).Errorf("Invalid EIP-1559 transaction data '%s': %s", rawTx, err)
 		return nil, nil, i18n.NewError(ctx, signermsgs.MsgInvalidEIP1559Transaction, err)
 	}
-	rlpList := decoded.(rlp.List)
-
-	if len(rlpList) < rlpMinLen {
+	rlpList, isList := decoded.(rlp.List)
+	if !isList || len(rlpList) < rlpMinLen {
 		log.L(ctx).Errorf("Invalid EIP-1559 transaction data (%d RLP elements)", rlpList)
 		return nil, nil, i18n.NewError(ctx, signermsgs.MsgInvalidEIP1559Transaction, "EOF")
 	}
